@@ -411,6 +411,11 @@ func (p *VipnodePool) requestHosts(ctx context.Context, nodeID string, numReques
 	remotes := make([]hostService, 0, len(r))
 	p.mu.Lock()
 	for _, node := range r {
+		if len(remotes) >= numRequestHosts {
+			// We have as many candidates as were asked for. (We query the
+			// store for a few more to make up for the ones we skip.)
+			break
+		}
 		if _, skip := skipPeers[node.ID]; skip {
 			// Skip peers we're already connected to, and ourself
 			continue
